@@ -2,6 +2,7 @@
 package c04
 
 import (
+	"path"
 	"bufio"
 	"encoding/json"
 	"fmt"
@@ -120,11 +121,13 @@ func symClass(v string) string {
 		return "other"
 	case `""`:
 		return "empty-tag"
+	case `"*"`:
+		return "quoted-star"
 	}
 	return "malformed"
 }
 
-var condValues = []string{"", "*", "$CUR", "$STALE", `"other"`, `""`, "abc", `W/"x"`, `"a", "b"`, `"abc`, `'a'`, "`abc`"}
+var condValues = []string{"", "*", "$CUR", "$STALE", `"other"`, `""`, `"*"`, "abc", `W/"x"`, `"a", "b"`, `"abc`, `'a'`, "`abc`"}
 
 func TestTruthTable(t *testing.T) {
 	if vev.ReplayFile() != "" {
@@ -196,6 +199,32 @@ func runAgree(a Agree) (vev.Outcome, error) {
 	reps, err := cfs.ParseMultiStatus(pf.Body)
 	if err != nil || len(reps) != 1 || reps[0].ETag == nil || *reps[0].ETag != tag {
 		return dev("propfind-mismatch", "PUT announced %q, PROPFIND body %.300q (err %v)", tag, pf.Body, err)
+	}
+	// other spellings of the same request path address the same resource and announce the same tag (added after
+	// seeded change C04-s7), and so does the listing of the parent
+	for _, sp := range []string{"//" + a.Name, "/./" + a.Name, "/x/../" + a.Name, p + "/"} {
+		g, _ := srv.Do(vfs.Req{Method: "GET", Path: sp})
+		if g.Status != 200 {
+			continue
+		}
+		if g.Header.Get("ETag") != tag {
+			return dev("spelling-mismatch", "GET %q announces %q, GET %q announced %q", sp, g.Header.Get("ETag"), p, tag)
+		}
+		if h, _ := srv.Do(vfs.Req{Method: "HEAD", Path: sp}); h.Status == 200 && h.Header.Get("ETag") != tag {
+			return dev("spelling-mismatch", "HEAD %q announces %q, want %q", sp, h.Header.Get("ETag"), tag)
+		}
+		if r, _ := srv.Do(vfs.Req{Method: "PUT", Path: sp, Body: a.Content + "+", IfNoneMatch: tag}); r.Status != 412 {
+			return dev("spelling-if-none-match", "PUT %q If-None-Match: current tag answered %d, want 412", sp, r.Status)
+		}
+	}
+	if lst, _ := srv.Do(vfs.Req{Method: "PROPFIND", Path: "/", Depth: "1"}); lst.Status == 207 {
+		if lreps, err := cfs.ParseMultiStatus(lst.Body); err == nil {
+			for _, lr := range lreps {
+				if lr.Path == path.Clean(p) && (lr.ETag == nil || *lr.ETag != tag) {
+					return dev("listing-mismatch", "the Depth 1 listing of / reports %v for %q, PUT announced %q", lr.ETag, p, tag)
+				}
+			}
+		}
 	}
 	// the announced tag is accepted back
 	if r, _ := srv.Do(vfs.Req{Method: "PUT", Path: p, Body: a.Content + "+", IfNoneMatch: tag}); r.Status != 412 {
